@@ -170,9 +170,12 @@ def stable_roots(P, f, du, expr, site, stmt=None, depth=0):
                             if isinstance(n, ast.Name):
                                 scope.setdefault(n.id, a)
                     continue
+                # a loop over the class ids (label values in the in-memory arm, positions of the per-class split in the Dask arm)
+                # binds an index, not data: both arms then address "the element of the current class"
+                is_ids = isinstance(it, ast.Call) and src(it.func).split(".")[-1] in ("unique_labels", "unique", "range", "set", "sorted")
                 for n in ast.walk(tg):
                     if isinstance(n, ast.Name):
-                        scope.setdefault(n.id, it)
+                        scope.setdefault(n.id, None if is_ids else it)
             child = p
             p = getattr(p, "_parent", None)
 
